@@ -1,5 +1,6 @@
 from contextlib import suppress
 from inspect import signature
+from types import SimpleNamespace
 import copy
 
 import numpy as np
@@ -136,7 +137,11 @@ class BoundConstraints:
         self.m = np.count_nonzero(self.xl > -np.inf) + np.count_nonzero(
             self.xu < np.inf
         )
-        self.pcs = PreparedConstraint(bounds, np.ones(bounds.lb.size))
+        self.pcs = (
+            PreparedConstraint(bounds, np.ones(self.xl.size))
+            if self.xl.size > 0
+            else None
+        )
 
     @property
     def xl(self):
@@ -704,9 +709,18 @@ class Problem:
 
         # Set the bound constraints.
         self._orig_bounds = bounds
-        self._bounds = BoundConstraints(
-            Bounds(bounds.xl[~self._fixed_idx], bounds.xu[~self._fixed_idx])
-        )
+        if np.all(self._fixed_idx):
+            # scipy.optimize.Bounds does not accept empty arrays.
+            self._bounds = BoundConstraints(
+                SimpleNamespace(lb=np.empty(0), ub=np.empty(0))
+            )
+        else:
+            self._bounds = BoundConstraints(
+                Bounds(
+                    bounds.xl[~self._fixed_idx],
+                    bounds.xu[~self._fixed_idx],
+                )
+            )
 
         # Set the initial guess.
         self._x0 = self._bounds.project(x0[~self._fixed_idx])
@@ -730,6 +744,7 @@ class Problem:
         # Scale the problem if necessary.
         scale = (
             scale
+            and self.n > 0
             and self._bounds.is_feasible
             and np.all(np.isfinite(self._bounds.xl))
             and np.all(np.isfinite(self._bounds.xu))
